@@ -338,3 +338,105 @@ m('c01_deepcopy_removed_normalise_leak', ['C01'], 'jesse/modes/backtest_mode.py'
                 short_candle = _get_fixed_jumped_candle(previous_short_candle, short_candle)
             if i + 1 < len(candles[j]['candles']) and candles[j]['candles'][i + 1][2] > short_candle[3]:
                 short_candle[5] = short_candle[5] + 1e-9""", note='volume of minute i depends on the next close')
+
+# ---- C03 -----------------------------------------------------------------------------------------
+m('c03_avg_price_weights_swapped', ['C03'], 'jesse/helpers.py',
+  """    return (abs(order_qty) * order_price + abs(current_qty) *
+            current_entry_price) / (abs(order_qty) + abs(current_qty))""",
+  """    return (abs(current_qty) * order_price + abs(order_qty) *
+            current_entry_price) / (abs(order_qty) + abs(current_qty))""")
+m('c03_cancel_wrong_table', ['C03'], 'jesse/models/FuturesExchange.py',
+  """            if order.side == sides.BUY:
+                index = find_order_index(self.buy_orders[base_asset].array, order_array)
+                if index != -1:
+                    self.buy_orders[base_asset].delete(index, axis=0)
+            else:
+                index = find_order_index(self.sell_orders[base_asset].array, order_array)
+                if index != -1:
+                    self.sell_orders[base_asset].delete(index, axis=0)""",
+  """            if order.side == sides.SELL:
+                index = find_order_index(self.buy_orders[base_asset].array, order_array)
+                if index != -1:
+                    self.buy_orders[base_asset].delete(index, axis=0)
+            else:
+                index = find_order_index(self.sell_orders[base_asset].array, order_array)
+                if index != -1:
+                    self.sell_orders[base_asset].delete(index, axis=0)""")
+m('c03_fee_only_on_entries', ['C03', 'C06'], 'jesse/models/Position.py',
+  """            if self.exchange and self.exchange.type == 'futures':
+                self.exchange.charge_fee(qty * price)""",
+  """            if self.exchange and self.exchange.type == 'futures' and not order.reduce_only:
+                self.exchange.charge_fee(qty * price)""")
+m('c03_reject_ge', ['C03'], 'jesse/models/FuturesExchange.py',
+  'if effective_order_size > self.available_margin:', 'if effective_order_size >= self.available_margin:')
+m('c03_upnl_added', ['C03'], 'jesse/models/FuturesExchange.py',
+  'total_spent -= position.pnl', 'total_spent += position.pnl')
+m('c03_max_to_sum', ['C03'], 'jesse/models/FuturesExchange.py',
+  """            total_spent += max(
+                abs(sum_buy_orders) / self.futures_leverage, abs(sum_sell_orders) / self.futures_leverage
+            )""", """            total_spent += (
+                abs(sum_buy_orders) / self.futures_leverage + abs(sum_sell_orders) / self.futures_leverage
+            )""")
+m('c03_reduce_pnl_current_price', ['C03', 'C06'], 'jesse/models/Position.py',
+  "        estimated_profit = jh.estimate_PNL(qty, self.entry_price, price, self.type)\n",
+  "        estimated_profit = jh.estimate_PNL(qty, self.entry_price, self.current_price if self.current_price else price, self.type)\n",
+  note='equivalent in the simulators (current price == fill price at the fill); direct-drive sets it too -> expected equivalent')
+m('c03_flip_keeps_entry', ['C03', 'C06'], 'jesse/models/Position.py',
+  """                        diff_qty = sum_floats(self.qty, qty)
+                        self._mutating_close(price)
+                        self._mutating_open(diff_qty, price)""",
+  """                        diff_qty = sum_floats(self.qty, qty)
+                        old_entry = self.entry_price
+                        self._mutating_close(price)
+                        self._mutating_open(diff_qty, (price + old_entry) / 2 if abs(diff_qty) < 0.5 else price)""")
+m('c03_reduce_only_increase_allowed_when_small', ['C03'], 'jesse/models/Position.py',
+  """                if order.reduce_only:
+                    logger.info('Did not increase position because order is a reduce_only order')""",
+  """                if order.reduce_only and abs(qty) >= abs(self.qty):
+                    logger.info('Did not increase position because order is a reduce_only order')""")
+m('c03_market_order_not_removed_from_table', ['C03'], 'jesse/models/FuturesExchange.py',
+  """        if not order.reduce_only:
+            order_array = np.array([order.qty, order.price])
+            if order.side == sides.BUY:
+                item_index = np.where(""", """        if not order.reduce_only and order.type != order_types.MARKET:
+            order_array = np.array([order.qty, order.price])
+            if order.side == sides.BUY:
+                item_index = np.where(""")
+
+# ---- C04 -----------------------------------------------------------------------------------------
+m('c04_double_release_again', ['C04'], 'jesse/models/SpotExchange.py',
+  "        # sell order: the committed stop/limit sums have already been released above\n",
+  """        else:
+            if order.type == order_types.STOP:
+                self.stop_orders_sum[order.symbol] = subtract_floats(self.stop_orders_sum[order.symbol], abs(order.qty))
+""")
+m('c04_fee_wrong_leg', ['C04'], 'jesse/models/SpotExchange.py',
+  "self.assets[base_asset] = sum_floats(self.assets[base_asset], abs(order.qty) * (1 - self.fee_rate))",
+  "self.assets[base_asset] = sum_floats(self.assets[base_asset], abs(order.qty))")
+m('c04_market_sell_ignores_limits', ['C04'], 'jesse/models/SpotExchange.py',
+  "order_qty = sum_floats(abs(order.qty), self.limit_orders_sum.get(order.symbol, 0))", "order_qty = abs(order.qty)")
+m('c04_sell_reject_ge', ['C04'], 'jesse/models/SpotExchange.py', 'if order_qty > base_balance:', 'if order_qty >= base_balance:')
+m('c04_buy_reject_le', ['C04'], 'jesse/models/SpotExchange.py',
+  'if self.assets[self.settlement_currency] < 0:', 'if self.assets[self.settlement_currency] <= 0:')
+m('c04_cancel_buy_releases_qty_only', ['C04'], 'jesse/models/SpotExchange.py',
+  "self.assets[self.settlement_currency] = sum_floats(self.assets[self.settlement_currency], abs(order.qty) * order.price)",
+  "self.assets[self.settlement_currency] = sum_floats(self.assets[self.settlement_currency], abs(order.qty) * order.price * (1 - self.fee_rate))")
+m('c04_exec_limit_sum_not_reduced', ['C04'], 'jesse/models/SpotExchange.py',
+  """            elif order.type == order_types.LIMIT:
+                self.limit_orders_sum[order.symbol] = subtract_floats(self.limit_orders_sum[order.symbol], abs(order.qty))
+
+        base_asset = jh.base_asset(order.symbol)
+
+        # buy order
+        if order.side == sides.BUY:
+            # asset's balance is increased""", """            elif order.type == order_types.LIMIT:
+                pass
+
+        base_asset = jh.base_asset(order.symbol)
+
+        # buy order
+        if order.side == sides.BUY:
+            # asset's balance is increased""")
+m('c04_position_qty_no_fee', ['C04'], 'jesse/models/Position.py',
+  "                self.qty = sum_floats(self.qty, qty * (1 - self.exchange.fee_rate))",
+  "                self.qty = sum_floats(self.qty, qty)")
